@@ -40,13 +40,14 @@ type Round struct {
 }
 
 type Case struct {
-	Mode    string    `json:"mode"` // seq | conc | cli | race
+	Mode    string    `json:"mode"` // seq | conc | cli | race | load
 	Seed    uint64    `json:"seed"`
 	Chain   *Node     `json:"chain,omitempty"`
 	Ops     []Op      `json:"ops,omitempty"`     // seq
 	Rounds  []Round   `json:"rounds,omitempty"`  // conc
 	Perturb []int     `json:"perturb,omitempty"` // conc: yields/sleeps consumed at failover.selected / swap.locked
 	CLI     *CLICase  `json:"cli,omitempty"`     // cli: the chain is built by the command itself (cli_test.go)
+	Load    *LoadCase `json:"load,omitempty"`    // load: requests parked inside the wrapped store while Swap is queued (load_test.go)
 	Race    *RaceCase `json:"race,omitempty"`    // race: failover group of 3..5 members, all but one failing, concurrent requests (race_test.go)
 }
 
@@ -288,6 +289,11 @@ func genCase(t *rapid.T) Case {
 	if cliDraw(&gctx{t: t}) {
 		c.Mode = "cli"
 		genCLI(t, &c)
+		return c
+	}
+	if (&gctx{t: t}).u(32, "load") == 0 {
+		c.Mode = "load"
+		genLoad(t, &c)
 		return c
 	}
 	if (&gctx{t: t}).u(64, "race") == 0 {
@@ -665,6 +671,11 @@ func run(c Case) (o hx.Outcome) {
 		runCLI(c, &o)
 		return o
 	}
+	if c.Mode == "load" {
+		defer func() { desync.VerifHook = nil }()
+		runLoad(c, &o)
+		return o
+	}
 	if c.Mode == "race" {
 		defer func() { desync.VerifHook = nil }()
 		runRace(c, &o)
@@ -735,12 +746,14 @@ var spec = &hx.Spec[Case]{
 	Rule: "cases = (chain of Router[2..3]/Failover[2..3]/Cache[+repair]/Swap/Dedup over in-memory leaves incl. the shapes the CLI builds, 4 chunk IDs, " +
 		"per-leaf faults down / fail-at-call-k / invalid object) x (sequential history of <=33 get/has/store/swap (incl. swaps a writable swap store has to refuse)/break/heal/corrupt steps compared step by step with a reference model, " +
 		"or a concurrent phase of 2..6 goroutines x 1..4 rounds against failover/swap chains with a controller swapping/breaking/healing and generated yields at failover.selected/swap.locked); " +
+		"or a load case (1 in 32, and a fixed grid of 42): swap store over a leaf / a router / a writable leaf; directed: 1..3 get/has/store requests parked inside the old store (gate) with outcome data / missing / invalid object / store failure, " +
+		"1..2 Swaps started and observed queued on the lock (runtime goroutine state), then the requests released; random: 2..8 goroutines x bursts of such requests racing with 1..4 swaps under generated yields inside the leaf and at swap.locked; " +
 		"or a race case (1 in 64, and a fixed grid of 12): failover group of 3..5 members of which exactly one never fails, 2..48 goroutines x 1..4 get/has requests for a held and an absent chunk on 25..600 fresh groups, " +
 		"either with every first request held inside the first failing member until all are inside and then released at once or staggered (late failure reports), or with generated yields at failover.selected; " +
 		"plus, when the built command is available, CLI cases (3 in 512 quick / 1 in 32 thorough, and a fixed grid of 40): desync extract / cat / chunk-server --store-file + SIGHUP given 1..3 -s entries " +
 		"(directory, harness HTTP chunk server, raw file server, failover group a|b of 2..3) and an optional -c cache (directory or writable HTTP store) with --cache-repair default/true/false, per member absent/valid/invalid objects and down = connection refused / always 500; " +
 		"non-trivial = history with a failover advance, a cache fill or a cache repair, or concurrent case with a failover advance or a swap issued while >=1 request was in flight, " +
-		"or race case in which members failed under >=2 goroutines, or CLI case whose documented resolution needs a failover advance, a cache fill or a cache repair; distinct by the whole case",
+		"or race case in which members failed under >=2 goroutines, or load case with a Swap seen queued behind an in-flight request (directed) or >=2 workers (random), or CLI case whose documented resolution needs a failover advance, a cache fill or a cache repair; distinct by the whole case",
 	Assumptions: []string{
 		"leaves are in-memory stores that verify stored bytes against the ID like a real store (ChunkInvalid) and report absence as ChunkMissing",
 		"reference model written from README (Caching, Multiple chunk stores, Store failover, Dynamic store configuration) and type doc comments; only result classes and the side effects named in the statement are compared",
@@ -748,6 +761,7 @@ var spec = &hx.Spec[Case]{
 		"concurrent oracle: a failover member counts as healthy only if it has no fault of any kind during the whole phase; expectations only for IDs that every chain version serves (or lacks) by construction",
 		"interleavings come from the Go scheduler plus generated yields; a green concurrent phase is evidence, not proof",
 		"race cases: there is no hook between a request's failure report and its next member selection, so a late report of another request cannot be placed there by force; the harness holds and releases the requests around it and repeats; the demand (every request for a held chunk succeeds, an absent one is reported missing) holds on every schedule",
+		"load cases: 'request and Swap do not return' is a verdict only when every goroutine still out is in a lock wait (runtime status) over 8 polls with all gates open; a 12 s deadline without that state is inconclusive",
 		"a writable swap store must refuse a store that cannot be written and leave the wrapped store open; an accepted swap closes every leaf of the replaced chain exactly once",
 		"CLI cases: only the exit status, the output, the cache directory afterwards and the request logs of the harness HTTP stores are observed; one-shot commands are judged by an order-free evaluation of the same model " +
 			"(no verdict on the exit status when members of one failover group differ for an ID and requests are concurrent); with --cache-repair=false an invalid cache entry must make the command fail (README, Caching); " +
@@ -757,6 +771,8 @@ var spec = &hx.Spec[Case]{
 		"fault:down", "fault:fail-at-k", "fault:invalid",
 		"ev:failover-advance", "ev:failover-exhausted", "ev:failover-missing-as-is", "ev:cache-fill", "ev:cache-hit", "ev:cache-repair", "ev:cache-invalid-fails",
 		"ev:router-fallthrough", "ev:router-abort", "ev:swap", "swap:refused", "request-after-refused-swap",
+		"mode:load", "load:directed", "load:random", "swap:queued-behind-inflight-request", "swap:queued-behind-failing-request", "load:random:failing-requests-race-with-swaps",
+		"load:get:data", "load:get:missing", "load:get:err", "load:get:invalid", "load:has:err", "load:store:ok", "load:store:err",
 		"mode:race", "failover:3+members:2+down:concurrent", "failover:3+members:2+down:barrier", "race:requests-held-inside-failing-member",
 		"conc:failover-advance", "conc:swap-with-request-in-flight", "conc:globally-missing-id", "conc:request-with-expectation"},
 	Gen:      genCase,
